@@ -26,6 +26,16 @@ CLAIMED = {
             '§4 C20', 'TLC; RVCDec!Expand'),
     'C05': ('sem', 'TLC enumerates the instance space of all 27 pseudo-instructions (PseudoSpace: registers incl. x0/sp/rd=rs, target before/after at 10-11 distance classes, li over every low-12-bit value x 24 upper classes); the bytes the real assembler emits for each (both modes) are decoded and EXECUTED by the TLA+ single-step semantics (RV32Exec) from 1/8/64 register files and compared with the documented effect (SemTrace)',
             '§4 C05', 'TLC; RV32Exec/RV32Dec/RVCDec; docs/instruction_reference.rst transcribed as SemTrace!Effect'),
+    'C10': ('front', 'TLC enumerates the value / string space (DataSpace) and AsmData gives the expected bytes or Refuse: 19 directives and formats x values from below the signed minimum to above the unsigned maximum of every width, every string of <= 2 (3) atoms over ASCII, syntax characters, 2/3/4-byte UTF-8 and escapes; include_bytes contents found beside the source / in sub-directories / -i directories from 4 working directories (API and CLI); each point replayed into the real assembler',
+            '§4 C10', 'TLC; AsmData.tla'),
+    'C11': ('front', 'TLC enumerates every expression tree of depth <= 2 over the documented operators and literal forms (ExprSpace, ~45k), AsmExpr!Eval (Python integer semantics written out in TLA+) gives the value; both a minimal-parentheses and a fully parenthesised rendering are assembled as constants; all 95 character literals; 17 use sites x boundary values for transparent substitution in both modes',
+            '§4 C11', 'TLC; AsmExpr.tla; the harness compares two observed outputs for substitution'),
+    'C13': ('front', 'TLC enumerates every documented rewrite (choice vector) of every line of 6 base programs (LexSpace, ~37k variants; all registers in all spellings) and checks the lexical theorem Norm(Lex(Render)) = line on each; each variant text replaces the canonical line (random blank/comment fillers) and the real assembler must produce the same bytes and labels; plus programs with all lines rewritten at once',
+            '§4 C13', 'TLC; AsmLex.tla; relational comparison of two observed outputs'),
+    'C14': ('front', 'TLC enumerates 15,120 include scenarios (depth, position, location of every included file, decoys, 5 working directories, absolute/relative main path) and AsmInclude!Flatten gives the acceptable flattenings with provenance; the real read_lines provenance, and bytes/labels/constants of the tree vs. the spliced program, are compared; CLI subprocess sample',
+            '§4 C14', 'TLC; AsmInclude.tla'),
+    'C15': ('front', 'TLC enumerates 51 faulty lines in 10 classes x 6 positions x include depth 0..2 (FaultSpace) and derives with Flatten the provenance the error must carry; each tree assembled via API (path and source string) in both modes and via CLI; exception type, file and line compared',
+            '§4 C15', 'TLC; AsmInclude!Flatten'),
     'C18': ('dfu', 'TLC exhaustive model checking of the host (shaped like dfu.cli_main) composed with a DfuSe device over all lengths, busy/poll-delay schedules, start states and failing operations within small constants (+ liveness under fairness, + named deviations that each invariant must catch); every exported TLC behaviour replayed into the real dfu.cli_main(); TLC trace validation (DfuTrace) of ~2000 recorded real runs (4 flash variants, boundary/swept lengths, random timing) in which TLC recomputes the flash from the requests',
             '§4 C18', 'TLC; DfuDevice.tla as the reading of DFU 1.1/DfuSe; fake usb module + patched time.sleep record faithfully'),
     'C19': ('dfu', 'same model and trace validation as C18 with every oversize class and every single / double device-error injection at every erase / write step; clauses OversizeRefusedBeforeAnyDnload and ErrorNeverAnnouncedDone judged by TLC on every recorded run',
@@ -72,6 +82,8 @@ def main():
              'kind_free_text': 'TLC enumerates abstract programs (AsmProgs, LitSpace); the real assembler is run on their rendering in both modes; TLC validates the recorded per-line bytes and label tables against the reference semantics (AsmRef, LayoutTrace)'},
             {'name': 'sem', 'path': 'harness/checks_sem.py', 'serves_properties': ['C05'],
              'kind_free_text': 'TLA+ decoder + single-step RV32 semantics executing recorded machine code of pseudo-instruction instances enumerated by TLC'},
+            {'name': 'front', 'path': 'harness/checks_front.py', 'serves_properties': ['C10', 'C11', 'C13', 'C14', 'C15'],
+             'kind_free_text': 'TLC enumerates each property\'s input space (DataSpace, ExprSpace, LexSpace, IncludeSpace, FaultSpace) and supplies expected outcomes from reference modules (AsmData, AsmExpr, AsmLex, AsmInclude); the harness renders and replays each point into the real assembler'},
             {'name': 'dfu', 'path': 'harness/engines/dfu.py', 'serves_properties': ['C18', 'C19'],
              'kind_free_text': 'TLA+ host+device model (Dfu, DfuDevice) checked exhaustively by TLC; real dfu.cli_main() run in-process against a simulated usb device; recorded request/sleep traces validated by TLC (DfuTrace)'},
         ],
